@@ -119,4 +119,16 @@ def pbkdf2Key (a : HashAlg) (pw salt : Bytes) (iter keyLen : Int) : Option Bytes
   let l := (kl + a.size - 1) / a.size
   some ((pbkdf2Blocks (hmac a pw) salt iter.toNat l).take kl)
 
+
+/-- the part of block `i` (1-based) that lies inside a key of `keyLen` bytes: PBKDF2 blocks are
+    independent, so a window of a very long key can be computed without the rest -/
+def pbkdf2Window (a : HashAlg) (pw salt : Bytes) (iter : Int) (keyLen i : Nat) : Bytes :=
+  (pbkdf2F (hmac a pw) salt iter.toNat i).take (keyLen - (i - 1) * a.size)
+
+/-- the whole key, block list built left to right (linear time; equal to `pbkdf2Key`, see
+    Props `pbkdf2Key_blocks`) -/
+def pbkdf2KeyLinear (a : HashAlg) (pw salt : Bytes) (iter : Int) (keyLen : Nat) : Bytes :=
+  ((List.range ((keyLen + a.size - 1) / a.size)).flatMap fun l =>
+    pbkdf2F (hmac a pw) salt iter.toNat (l + 1)).take keyLen
+
 end XC.C18
